@@ -256,9 +256,9 @@ def mutF (S : Schema) (f : FieldDesc) (v : Val) : FW :=
     (match f.elem with
      | .message mi =>
        (match v with
+        | .one .none => .putOne (emptyMsg S mi)   -- `if m == nil || m.F == nil { allocate }` (fix 87342f4)
         | .one x => .put (.one x)                 -- `case *W: return m.F.ProtoReflect()`, no allocation
-        | .oneNil => .panic                       -- `m.F` on a typed-nil wrapper
-        | _ => .putOne (emptyMsg S mi))
+        | _ => .putOne (emptyMsg S mi))           -- unset, another member, or a typed-nil wrapper
      | .scalar _ => .panic)
 
 /-- list view writes, after `Mutable(fd)` (list.go) -/
